@@ -58,17 +58,45 @@ HARNESSES = [
             'expansion depth is bounded by the number of macros and a self-referential macro is left unexpanded as C11 6.10.3.4p2 requires)',
   'bounds': {'quick': {'defs': {'DEPTH': 3}, 'unwind': 6, 'cap': 300},
              'thorough': {'defs': {'DEPTH': 4}, 'unwind': 7, 'cap': 1200}}},
+] + [
+ {'id': 'c08_arg_expand_' + _nm,
+  'property': 'C08',
+  'src': 'c08_expand.cxx',
+  'entry': 'harness_c08_arg_expand',
+  'tus': _TUS, 'skip_ctors': _SKIP, 'models': ['noinline.c'], 'hflags': ['-DONLY_PRE=%d' % _k],
+  # a long run of concrete code (every scenario is executed with constant data): --pointer-check makes symbolic execution
+  # quadratic in its length (engine/HOWTO.md section 5); crashes via models/base.c, bounds checks and the native
+  # ASan/UBSan replay still apply
+  'cbmc_flags': ['--no-pointer-check'],
+  'desc': 'argument pre-expansion versus # and ## (C11 6.10.3.1p1) through the real definition constructor (parse_parameters, save_expansion), '
+          'the real CPPManifest::expand / r_expand and the real CPPPreprocessor::expand_manifests against the _manifests table; '
+          'definitions whose parameter is ' + _what,
+  'domain': 'definitions "F(x) <body>" with the parameter ' + _what + ' and followed by nothing / a plain token / ##, ## written with or '
+            'without surrounding blanks; the call argument is an object-like macro name (N -> 7), a macro whose expansion needs rescanning '
+            '(K -> N -> 7) or a plain identifier; all combinations (symbolic choices, enumerated inside the one query)',
+  'oracle': 'the replaced text equals the conforming token sequence: the argument appears macro-expanded iff the parameter is not an operand of # or ##, '
+            'otherwise as its spelling (quoted for #), pasted operands adjacent, other tokens separated by one blank',
+  'bounds': {'quick': {'defs': {}, 'unwind': 40, 'cap': 300}}}
+ for (_k, _nm, _what) in [(0, 'first', 'the first token of the replacement list'), (1, 'plain', 'preceded by a plain token'),
+                          (2, 'paste', 'preceded by ## (right-hand operand of a paste)'), (3, 'stringify', 'preceded by #')]
 ]
 
 PROPERTY_INFO = {'C08': {'level': 'model_checking',
          'explanation': 'bounded symbolic execution (CBMC) of the real CPPManifest::stringify and CPPManifest::extract_args against references '
-                        'written from C11 6.10.3 / 6.10.3.2 over every short text of a small alphabet',
-         'outside': 'definition -> expansion of a whole macro (constructor + save_expansion + r_expand: the nested hand-written scanners exceed the '
-                    'solver budget on symbolic bodies; their totality on short texts is under C15); rescanning and nested expansion as token sequences (the suppression of self-referential expansion is decided as an '
+                        'written from C11 6.10.3 / 6.10.3.2 over every short text of a small alphabet; argument pre-expansion versus # / ## '
+                        '(6.10.3.1p1) end to end through the real definition constructor, save_expansion, r_expand and expand_manifests over an '
+                        'enumerated family of one-parameter definitions and three kinds of argument (c08_arg_expand_*)',
+         'outside': 'definition -> expansion of a whole macro on arbitrary symbolic bodies (constructor + save_expansion + r_expand: the nested '
+                    'hand-written scanners exceed the solver budget there; the c08_arg_expand_* entries decide the family of bodies listed in '
+                    'their domain, with concrete texts per choice; totality on short texts is under C15); variadic parameters, __VA_OPT__, '
+                    'several parameters, function-like macros as arguments; rescanning and nested expansion as token sequences (the suppression of self-referential expansion is decided as an '
                     'inductive step on push_expansion/should_ignore_manifest, not on expanded text), multi-line invocations, #undef/push_macro, the lexer-driven path get_identifier -> expand_manifest -> '
                     'push_expansion; white-space normalisation of arguments before stringification; the "Not enough / Too many arguments" warnings',
          'assumptions': ['inputs with unterminated string/character literals are excluded from the conformance oracles (undefined behaviour per '
                          'C11 6.4p3); they are covered for totality under C15',
-                         'F() is represented as zero arguments (a missing argument expands as empty): token-equivalent to one empty argument']}}
+                         'F() is represented as zero arguments (a missing argument expands as empty): token-equivalent to one empty argument',
+                         'c08_arg_expand_*: the bucket-growth policy of the two libstdc++ hash containers on the path (_manifests, Ignores) never '
+                         'rehashes and std::_Hash_bytes is a simple polynomial (harness/c08_expand.cxx; container contents do not depend on either); '
+                         'run without --pointer-check (long concrete runs; bounds checks, crash models and the native ASan replay still apply)']}}
 
 NOT_APPLICABLE = {}
